@@ -475,9 +475,12 @@ impl Runtime for InvocationCtx<'_> {
             ));
         }
         self.caller_validated.replace(true);
+        // harness VM: a caller whose code is not a built-in actor matches no type (fvm.rs: `_ => forbidden`)
         let to_match =
-            ACTOR_TYPES.get(&self.v.actor(&Address::new_id(self.msg.from)).unwrap().code).unwrap();
-        if types.into_iter().any(|t| *t == *to_match) {
+            ACTOR_TYPES.get(&self.v.actor(&Address::new_id(self.msg.from)).unwrap().code);
+        if let Some(to_match) = to_match
+            && types.into_iter().any(|t| *t == *to_match)
+        {
             return Ok(());
         }
         Err(ActorError::unchecked(
